@@ -552,76 +552,131 @@ func init() {
 // The flag may depend on the map's own storage (the Go comma-ok, or the
 // looked-up pointer being non-nil) and on nothing about the value found.
 func init() {
-	register(&Rule{ID: "MAP.found-is-presence", Floor: 1,
-		Doc: "in the sorted map's Get every `return <value>, true` is guarded only by presence tests — the element looked up in the backing Go map is non-nil, or the comma-ok of that lookup — and by nothing that inspects the value (IsNil, Type, length): key?, get-default, the schema key constraints and no-other-keys see a key whose value is () as present",
+	register(&Rule{ID: "MAP.found-is-presence", Floor: 2,
+		Doc: "in the Get method of every implementation of lisp.Map (the kernel's sorted map and the one JSON decoding produces) the `found` result is decided by presence only: a `return <value>, true` is guarded only by presence tests — the element looked up in the backing Go map is non-nil, or the comma-ok of that lookup — and a computed found result is itself such a test; nothing that inspects the VALUE (IsNil, Type, length) takes part: key?, get-default, the schema key constraints and no-other-keys see a key whose value is () as present",
 		Run: func(c *Ctx) []Obligation {
 			const rid = "MAP.found-is-presence"
-			fn, fd, pkg := c.LookupFunc("lisp.sortedmap.Get")
-			if fn == nil {
-				fn, fd, pkg = c.LookupFunc("lisp.(*sortedmap).Get")
+			lp := c.Pkg("lisp")
+			if lp == nil {
+				return []Obligation{anchorMissing(rid, "package lisp")}
 			}
-			if fn == nil {
-				return []Obligation{anchorMissing(rid, "lisp.sortedmap.Get")}
+			mapIface, _ := lp.Types.Scope().Lookup("Map").Type().Underlying().(*types.Interface)
+			if mapIface == nil {
+				return []Obligation{anchorMissing(rid, "lisp.Map")}
 			}
-			u := FuncUnit{fn, fd, pkg}
-			info := pkg.TypesInfo
 			var obs []Obligation
-			ord := &ordinal{}
-			var stack []ast.Node
-			ast.Inspect(fd.Body, func(n ast.Node) bool {
-				if n == nil {
-					stack = stack[:len(stack)-1]
-					return true
+			n := 0
+			for _, u := range c.Funcs(func(p string) bool { return true }) {
+				if u.Decl == nil || u.Decl.Recv == nil || u.Decl.Body == nil || u.Obj.Name() != "Get" {
+					continue
 				}
-				stack = append(stack, n)
-				rs, ok := n.(*ast.ReturnStmt)
-				if !ok || len(rs.Results) != 2 || !isBoolConst(info, rs.Results[1], true) {
-					return true
+				rt := u.Obj.Type().(*types.Signature).Recv().Type()
+				if !types.Implements(rt, mapIface) && !types.Implements(types.NewPointer(rt), mapIface) {
+					continue
 				}
-				construct := ord.next("return found")
-				bad := ""
-				for _, anc := range stack {
-					is, ok := anc.(*ast.IfStmt)
-					if !ok {
-						continue
-					}
-					// every atom: X != nil, or a bool ident (comma-ok)
-					var walk func(e ast.Expr)
-					walk = func(e ast.Expr) {
-						e = ast.Unparen(e)
-						switch x := e.(type) {
-						case *ast.BinaryExpr:
-							if x.Op == token.LAND || x.Op == token.LOR {
-								walk(x.X)
-								walk(x.Y)
-								return
+				n++
+				fd := u.Decl
+				info := u.Pkg.TypesInfo
+				ord := &ordinal{}
+				// atoms of a presence test: X != nil / X == nil, or a bool local that is the
+				// comma-ok of a map lookup; anything else inspects the value
+				var badAtom func(e ast.Expr) string
+				badAtom = func(e ast.Expr) string {
+					e = ast.Unparen(e)
+					switch x := e.(type) {
+					case *ast.UnaryExpr:
+						if x.Op == token.NOT {
+							return badAtom(x.X)
+						}
+					case *ast.BinaryExpr:
+						if x.Op == token.LAND || x.Op == token.LOR {
+							if b := badAtom(x.X); b != "" {
+								return b
 							}
-							if x.Op == token.NEQ || x.Op == token.EQL {
-								tx, okx := info.Types[x.X]
-								ty, oky := info.Types[x.Y]
-								if okx && oky && (tx.IsNil() || ty.IsNil()) {
-									return
-								}
-							}
-						case *ast.Ident:
-							if b, ok := info.TypeOf(x).Underlying().(*types.Basic); ok && b.Kind() == types.Bool {
-								return
+							return badAtom(x.Y)
+						}
+						if x.Op == token.NEQ || x.Op == token.EQL {
+							tx, okx := info.Types[x.X]
+							ty, oky := info.Types[x.Y]
+							if okx && oky && (tx.IsNil() || ty.IsNil()) {
+								return ""
 							}
 						}
-						bad = types.ExprString(e)
+					case *ast.Ident:
+						if bt, ok := info.TypeOf(x).Underlying().(*types.Basic); ok && bt.Kind() == types.Bool {
+							if tv, ok := info.Types[x]; ok && tv.Value != nil {
+								return "" // true / false
+							}
+							// a comma-ok local
+							okDef := false
+							if o := identObj(info, x); o != nil {
+								ast.Inspect(fd.Body, func(m ast.Node) bool {
+									if as, ok := m.(*ast.AssignStmt); ok && len(as.Lhs) == 2 && len(as.Rhs) == 1 && identObj(info, as.Lhs[1]) == o {
+										if ix, ok := ast.Unparen(as.Rhs[0]).(*ast.IndexExpr); ok {
+											if _, isMap := info.TypeOf(ix.X).Underlying().(*types.Map); isMap {
+												okDef = true
+											}
+										}
+									}
+									return true
+								})
+							}
+							if okDef {
+								return ""
+							}
+						}
 					}
-					walk(is.Cond)
-					if as, ok := is.Init.(*ast.AssignStmt); ok {
-						_ = as
+					return types.ExprString(e)
+				}
+				var stack []ast.Node
+				ast.Inspect(fd.Body, func(nd ast.Node) bool {
+					if nd == nil {
+						stack = stack[:len(stack)-1]
+						return true
 					}
-				}
-				if bad != "" {
-					obs = append(obs, mkOb(c, rid, u, construct, rs, Violated, "whether the key is reported as found depends on `"+bad+"`, a property of the value stored under it: a key bound to () (or whatever the test excludes) reads as absent, so s:has-key fails on a map that has the key, s:no-other-keys and s:may-have-key pass maps they should judge, and lisp-built and JSON-decoded maps disagree", true))
-				} else {
-					obs = append(obs, mkOb(c, rid, u, construct, rs, Proved, "guarded by presence in the backing map only", true))
-				}
-				return true
-			})
+					stack = append(stack, nd)
+					rs, ok := nd.(*ast.ReturnStmt)
+					if !ok || len(rs.Results) != 2 || isBoolConst(info, rs.Results[1], false) {
+						return true
+					}
+					construct := ord.next("return found")
+					bad := ""
+					if !isBoolConst(info, rs.Results[1], true) {
+						bad = badAtom(rs.Results[1])
+					}
+					for _, anc := range stack {
+						if is, ok := anc.(*ast.IfStmt); ok && bad == "" {
+							// an enclosing test of the key's type is not a test of the value
+							keyTest := false
+							if fd.Type.Params != nil && len(fd.Type.Params.List) > 0 && len(fd.Type.Params.List[0].Names) > 0 {
+								key := info.Defs[fd.Type.Params.List[0].Names[0]]
+								mentionsOnlyKey := true
+								ast.Inspect(is.Cond, func(m ast.Node) bool {
+									if id, ok := m.(*ast.Ident); ok {
+										if v, ok := info.Uses[id].(*types.Var); ok && !v.IsField() && v != key {
+											mentionsOnlyKey = false
+										}
+									}
+									return true
+								})
+								keyTest = mentionsOnlyKey
+							}
+							if !keyTest {
+								bad = badAtom(is.Cond)
+							}
+						}
+					}
+					if bad != "" {
+						obs = append(obs, mkOb(c, rid, u, construct, rs, Violated, "whether the key is reported as found depends on `"+bad+"`, a property of the value stored under it: a key bound to () (or whatever the test excludes) reads as absent, so s:has-key fails on a map that has the key, s:no-other-keys and s:may-have-key pass maps they should judge, and lisp-built and JSON-decoded maps disagree", true))
+					} else {
+						obs = append(obs, mkOb(c, rid, u, construct, rs, Proved, "decided by presence in the backing map only", true))
+					}
+					return true
+				})
+			}
+			if n == 0 {
+				obs = append(obs, anchorMissing(rid, "a Get method of a lisp.Map implementation"))
+			}
 			return obs
 		}})
 }
